@@ -143,7 +143,8 @@ let run (entry : string) (inp : Sx.t) : Sx.t =
       (try
          let cells = List.concat_map (fun seg ->
            let items = to_list to_item seg in
-           if List.for_all (fun (cd, _) -> cd = None) items then
+           (* a table buffer with zero rows is skipped by ingest_efficient: it mentions nothing *)
+           if List.for_all (fun (cd, rows) -> cd = None || Z.sign (z_of_cz rows) = 0) items then
              let n = List.fold_left (fun acc (_, rows) -> acc + Z.to_int (z_of_cz rows)) 0 items in
              List.init n (fun _ -> A "null")
            else
